@@ -64,6 +64,10 @@ def r13a(ck, prog):
                     ok = True
                 elif p.k == "BinaryOperator" and p.d["op"] == "=" and const_value(p.kids[1]) == 0:
                     ok = True
+                elif p.k == "BinaryOperator" and p.d["op"] == "=":
+                    r = p.kids[1].strip(casts=True)
+                    if r.k == "BinaryOperator" and r.d["op"] == "+" and any(k.strip(casts=True).text() == p.kids[0].strip().text() for k in r.kids):
+                        ok = True            # x = x + e
             ck.inst("R13a", where, "%s updates letter_freq: %s" % (F.name, p.text()[:50] if p is not None else "?"), prog.config)
             if not ok:
                 ck.violation("R13a", "R13a/%s/letter_freq-update" % F.name, where,
